@@ -534,12 +534,14 @@ def networkFromDict (parent : Sys) (base : Option String) (fs : FS) (j : Json) :
     let rs := childList o "reactions"
     if networkValid (sp.map labelOf) (rs.map labelOf) (rs.flatMap sidesOf) then .ok o else .error .badValue
 
-/-- which writer a level-0 child of a network / graph dictionary uses is decided by the key it sits under -/
-def networkToDict (o : L1) : Json :=
-  .obj [("units", sysToJson (objSys o)),
-        ("species", .arr ((childList o "species").map speciesToDict)),
-        ("reactions", .arr ((childList o "reactions").map reactionToDict)),
-        ("environments", writeVal (fun _ => .null) ((o.lookup "environments").getD .none))]
+/-- which writer a level-0 child uses is decided by what it is (its constructor parameters) -/
+def writeL0 (parent : Sys) (o : L0) : Json :=
+  if (o.lookup "stoichiometry").isSome then reactionToDict o
+  else if (o.lookup "D").isSome then speciesToDict o
+  else if (o.lookup "volume").isSome then nodeToDict parent o
+  else edgeToDict parent o
+
+def networkToDict (o : L1) : Json := toDictG networkFields [] none (writeL0 (objSys o)) o
 
 def gridFromDict (parent : Sys) (base : Option String) (fs : FS) (j : Json) : Res L1 :=
   match fromDictG DictKeys.grid gridFields parent base fs level0Child j with
@@ -551,12 +553,7 @@ def gridToDict (o : L1) : Json := toDictG gridFields [("type", .str "grid")] non
 def graphFromDict (parent : Sys) (base : Option String) (fs : FS) (j : Json) : Res L1 :=
   fromDictG DictKeys.graph graphFields parent base fs level0Child j
 
-def graphToDict (o : L1) : Json :=
-  let us := objSys o
-  .obj [("type", .str "graph"),
-        ("nodes", .arr ((childList o "nodes").map (nodeToDict us))),
-        ("edges", .arr ((childList o "edges").map (edgeToDict us))),
-        ("units", sysToJson us)]
+def graphToDict (o : L1) : Json := toDictG graphFields [("type", .str "graph")] none (writeL0 (objSys o)) o
 
 /-- `rdspace_from_dict`: dispatch on "type" (absent = grid) -/
 def spaceFromDict (parent : Sys) (base : Option String) (fs : FS) (j : Json) : Res L1 :=
@@ -624,11 +621,10 @@ def systemFromDict (parent : Sys) (base : Option String) (fs : FS) (j : Json) : 
   | .error e => .error e
   | .ok o => finishSystem o
 
-def systemToDict (o : L2) : Json :=
-  let child (k : String) (w : L1 → Json) : Json := match o.lookup k with | some (.child c) => w c | _ => .null
-  .obj [("units", sysToJson (objSys o)), ("network", child "network" networkToDict), ("space", child "space" spaceToDict),
-        ("state", writeVal (fun _ => .null) ((o.lookup "state").getD .none)),
-        ("chemostats", writeVal (fun _ => .null) ((o.lookup "chemostats").getD .none))]
+def writeL1 (o : L1) : Json :=
+  if (o.lookup "species").isSome then networkToDict o else spaceToDict o
+
+def systemToDict (o : L2) : Json := toDictG systemFields [] none writeL1 o
 
 def level2Child (fs : FS) : String → Sys → Option String → Json → Res L2
   | "system", us, base, j => systemFromDict us base fs j
@@ -637,16 +633,17 @@ def level2Child (fs : FS) : String → Sys → Option String → Json → Res L2
 def scriptFromDict (base : Option String) (fs : FS) (j : Json) : Res L3 :=
   fromDictG DictKeys.script scriptFields Sys.default base fs (level2Child fs) j
 
+/-- `script.t_max` as a value: "default" is the last requested sample time (in the units of `t_sample`) -/
+def resolveTmax (o : L3) : L3 :=
+  match o.lookup "t_max", o.lookup "t_sample" with
+  | some (.qty _), _ => o
+  | _, some (.arr a) =>
+    (match a.vs.getLast? with
+     | some v => o.map fun p => if p.1 == "t_max" then (p.1, .qty ⟨v, a.u⟩) else p
+     | none => o)
+  | _, _ => o
+
 /-- `rdscript_to_dict`; `str(script.t_max)` resolves "default" to the last requested sample time -/
-def scriptToDict (o : L3) : Json :=
-  let tmax : Json := match o.lookup "t_max", o.lookup "t_sample" with
-    | some (.qty x), _ => writeQty x
-    | _, some (.arr a) => (match a.vs.getLast? with | some v => writeQty ⟨v, a.u⟩ | none => .null)
-    | _, _ => .null
-  let f (k : String) : Json := writeVal (fun _ => .null) ((o.lookup k).getD .none)
-  .obj [("system", match o.lookup "system" with | some (.child c) => systemToDict c | _ => .null),
-        ("t_sample", f "t_sample"), ("time_step", f "time_step"), ("t_max", tmax), ("sampling_policy", f "sampling_policy"),
-        ("sampling_interval", f "sampling_interval"), ("rng_seed", f "rng_seed"),
-        ("init_state_processing", f "init_state_processing"), ("units", sysToJson (objSys o))]
+def scriptToDict (o : L3) : Json := toDictG scriptFields [] none systemToDict (resolveTmax o)
 
 end Strengths.Dict
